@@ -172,6 +172,11 @@ def r10_12(ctx):
                                                                   all(not pb.reaches(0, p, removed_nodes=inner_clears) for p in populate)))
     ctx.ob("position:table-cleared-before-rebuild", cleared_in_arm or cleared_inside, lb.where(lb.term_loc(pbb)),
            "cleared in the `position` arm before play_out_position: %s; cleared inside play_out_position on every path before anything is recorded: %s" % (cleared_in_arm, cleared_inside))
+    # nothing that was recorded for this command is dropped again: no clear can follow a populate
+    late = sorted(c for c in inner_clears if any(p2 != c and (pb.reaches(p2, c)) for p2 in populate))
+    ctx.ob("play_out_position:no-clear-after-recording", not late, pb.where(pb.term_loc(late[0])) if late else pb.file,
+           "the table is only cleared before the first position of the command is recorded" if not late else
+           "`clear()` can run after positions of this command were recorded: the record then no longer holds every position of the described game with its count")
     # start position recorded once on every path to return
     ins = []
     for bb, k in ptc.items():
